@@ -661,3 +661,122 @@ reg("map_blocks_block_info", lambda da, A, kw, extra: A[0].map_blocks(_with_info
 
 def _with_info(b, block_info=None):
     return b * 1
+
+
+# ------------------------------------------------------------------ dask-array ARGUMENTS (indexers, masks, bins, choices)
+# Every argument collection is a SOURCE of the case (hence a root, fingerprinted as a dependency, re-computed
+# afterwards and compared with its pristine data); NumPy arrays handed over as arguments are watched.
+
+
+def _watch(extra, arrays):
+    """NumPy arrays the user hands to the operation as ARGUMENTS (keys, values): must be bytewise unchanged afterwards"""
+    from harness import graphs
+
+    kept = [(a, a.copy(), graphs.fingerprint(a)) for a in arrays]
+    prev = extra.get("post")
+
+    def post(pristine):
+        bad = list(prev(pristine) or []) if prev is not None else []
+        for i, (a, c, fp) in enumerate(kept):
+            if graphs.fingerprint(a) != fp:
+                bad.append(("source-mutated", f"NumPy array passed as argument {i} changed: {c.ravel()[:8].tolist()} -> {a.ravel()[:8].tolist()}"))
+        return bad
+
+    extra["post"] = post
+
+
+def _at(nd, axis, key, rest=None):
+    """index tuple with `key` on `axis`; rest: optional encoded basic indices for the other axes"""
+    out = [slice(None)] * nd
+    if rest:
+        for i, e in enumerate(rest):
+            if i != axis and e is not None:
+                out[i] = slice(e[1], e[2], e[3]) if e[0] == "s" else e[1]
+    out[axis] = key
+    return tuple(out)
+
+
+def _arg_getitem(da, A, kw, extra):
+    """x[..., key, ...] and (same key object) y[..., key, ...] with y of ANOTHER length along the axis"""
+    key = A[-1]
+    outs = [A[0][_at(A[0].ndim, kw["axis"], key, kw.get("rest"))]]
+    for y in A[1:-1]:
+        outs.append(y[_at(y.ndim, kw["axis"], key)])
+    if kw.get("again"):
+        outs.append(A[0][_at(A[0].ndim, kw["axis"], key)] * 2)
+    return outs
+
+
+def _arg_getitem_np(P, kw):
+    key = P[-1]
+    if key.dtype.kind == "b" and len(P) > 2:
+        return None
+    outs = [P[0][_at(P[0].ndim, kw["axis"], key, kw.get("rest"))]]
+    for y in P[1:-1]:
+        outs.append(y[_at(y.ndim, kw["axis"], key)])
+    if kw.get("again"):
+        outs.append(P[0][_at(P[0].ndim, kw["axis"], key)] * 2)
+    return outs
+
+
+reg("arg.getitem", _arg_getitem, _arg_getitem_np)
+reg("arg.getitem_mask_nd", lambda da, A, kw, extra: [A[0][A[-1]], A[0][A[-1]] + 1], lambda P, kw: [P[0][P[-1]], P[0][P[-1]] + 1])
+reg("arg.take", lambda da, A, kw, extra: [da.take(y, A[-1], axis=kw["axis"]) for y in A[:-1]],
+    lambda P, kw: [np.take(y, P[-1], axis=kw["axis"]) for y in P[:-1]])
+
+
+def _arg_setitem(da, A, kw, extra, npmode=False):
+    x, key = A[0], A[-1]
+    y = x.copy()
+    idx = key if kw.get("full") else _at(x.ndim, kw["axis"], key, kw.get("rest"))
+    v = kw["value"]
+    if v == "nparr":
+        shp = np.empty(x.shape)[_at(x.ndim, kw["axis"], np.zeros(key.shape, dtype="i8"), kw.get("rest"))].shape
+        v = np.arange(int(np.prod(shp)), dtype=x.dtype).reshape(shp) + 1000
+        if not npmode:
+            _watch(extra, [v])
+    y[idx] = v
+    return [y, x] if npmode else [y, x, y + 1]
+
+
+reg("arg.setitem", _arg_setitem, lambda P, kw: _arg_setitem(None, [p.copy() for p in P], kw, {}, npmode=True))
+reg("arg.compress", lambda da, A, kw, extra: da.compress(A[-1], A[0], axis=kw["axis"]), lambda P, kw: np.compress(P[-1], P[0], axis=kw["axis"]))
+reg("arg.extract", lambda da, A, kw, extra: da.extract(A[-1], A[0]), lambda P, kw: np.extract(P[-1], P[0]))
+reg("arg.choose", lambda da, A, kw, extra: da.choose(A[-1], [A[0], A[1]]), lambda P, kw: np.choose(P[-1], [P[0], P[1]]))
+reg("arg.select", lambda da, A, kw, extra: da.select([A[2], A[3]], [A[0], A[1]], default=kw.get("default", 0)),
+    lambda P, kw: np.select([P[2], P[3]], [P[0], P[1]], default=kw.get("default", 0)))
+reg("arg.where", lambda da, A, kw, extra: da.where(A[2], A[0], A[1]), lambda P, kw: np.where(P[2], P[0], P[1]))
+reg("arg.piecewise", lambda da, A, kw, extra: da.piecewise(A[0], [A[1], A[2]], [-1.0, 2.0, 5.0]), lambda P, kw: np.piecewise(P[0], [P[1], P[2]], [-1.0, 2.0, 5.0]))
+reg("arg.digitize", lambda da, A, kw, extra: da.digitize(A[0], A[1], right=kw.get("right", False)), lambda P, kw: np.digitize(P[0], P[1], right=kw.get("right", False)))
+reg("arg.searchsorted", lambda da, A, kw, extra: da.searchsorted(A[1], A[0], side=kw.get("side", "left")), lambda P, kw: np.searchsorted(P[1], P[0], side=kw.get("side", "left")))
+reg("arg.histogram", lambda da, A, kw, extra: da.histogram(A[0], bins=A[1], weights=(A[2] if kw.get("weights") else None), density=kw.get("density"))[0],
+    lambda P, kw: np.histogram(P[0], bins=P[1], weights=(P[2] if kw.get("weights") else None), density=kw.get("density"))[0])
+reg("arg.bincount", lambda da, A, kw, extra: da.bincount(A[0], weights=(A[1] if kw.get("weights") else None), minlength=kw.get("minlength", 0)),
+    lambda P, kw: np.bincount(P[0], weights=(P[1] if kw.get("weights") else None), minlength=kw.get("minlength", 0)))
+reg("arg.isin", lambda da, A, kw, extra: da.isin(A[0], A[1], invert=kw.get("invert", False)), lambda P, kw: np.isin(P[0], P[1], invert=kw.get("invert", False)))
+reg("arg.ravel_multi_index", lambda da, A, kw, extra: da.ravel_multi_index(A[0], _t(kw["dims"])), lambda P, kw: np.ravel_multi_index(tuple(P[0]), _t(kw["dims"])))
+reg("arg.unravel_index", lambda da, A, kw, extra: da.unravel_index(A[0], _t(kw["dims"])), lambda P, kw: list(np.unravel_index(P[0], _t(kw["dims"]))))
+
+
+def _numpy_key(da, A, kw, extra, P=None):
+    """NumPy index / value arrays as arguments (negative entries, every integer dtype): the user's arrays must survive"""
+    x = A[0] if P is None else P[0]
+    how = kw["how"]
+    key = np.array(kw["key"], dtype=kw.get("kdtype", "i8"))
+    key2 = np.array(kw["key2"], dtype=kw.get("kdtype", "i8")) if "key2" in kw else None
+    if P is None:
+        _watch(extra, [k for k in (key, key2) if k is not None])
+    if how == "getitem":
+        return x[_at(x.ndim, kw["axis"], key)]
+    if how == "take":
+        return (da if P is None else np).take(x, key, axis=kw["axis"])
+    if how == "vindex":
+        return x.vindex[key, key2] if P is None else x[key, key2]
+    if how == "setitem":
+        y = x.copy()
+        y[_at(x.ndim, kw["axis"], key)] = kw.get("value", -3)
+        return [y, x] if P is not None else [y, x + 0]
+    raise KeyError(how)
+
+
+reg("arg.numpy_key", _numpy_key, lambda P, kw: _numpy_key(None, None, kw, {}, P=[p.copy() for p in P]))
